@@ -51,6 +51,7 @@ PRE = [
     ["mutate", [["p", ["gt", x, lit(1)]]]],  # computed nullable boolean key
     ["arrange", [k]],
     ["filter", [["is_null", g]]],
+    ["mutate", [["c", lit(1)]]],  # constant key (not part of GROUP BY on SQL)
 ]
 GROUP = [
     ["group_by", [g]],
@@ -58,6 +59,7 @@ GROUP = [
     ["group_by", [s]],
     ["group_by", [g, b]],
     ["group_by", [Cn("p")]],
+    ["group_by", [Cn("c")]],
 ]
 GROUP_ADD = [["group_by", [b], True], ["group_by", [g], True]]
 # a second group_by without add= replaces the grouping (an overlapping and the identical column list; disjoint ones arise from the other first-level groupings)
